@@ -1,6 +1,7 @@
 """C11 — variable storage exposed via PEEK / VARPTR / VARPTR$ and never aliased.
 
 Spec VarMem.tla (property on sweeps + implementation-shaped layout model); models VarMem_MC*.cfg; trace spec VarMem_Trace."""
+import os
 from ..session import Sess
 from .. import graph, core
 
@@ -35,6 +36,10 @@ class Internal(Exception):
     pass
 
 
+class NoRoom(Exception):
+    """The sweep itself (MKx$, VARPTR$ need a few bytes of string space) ran out of memory: the history ends here."""
+
+
 class Drv(object):
     def __init__(self, ctx):
         self.ctx = ctx
@@ -47,6 +52,7 @@ class Drv(object):
         self.base = 0
         self.sessions = 0
         self.cells_swept = 0
+        self.norooms = 0
 
     def close(self):
         if self.s:
@@ -108,10 +114,14 @@ class Drv(object):
                 r = self.s.ev(ref)
             else:
                 r = self.s.ev('%s(%s)' % (MK[t], ref))
+            if r[0] == 'err' and r[1] in (7, 14):
+                raise NoRoom()
             if r[0] != 'ok':
                 raise Internal('value of %s -> %r' % (ref, r[:2]))
             c['val'] = list(r[1])
             r = self.s.ev('VARPTR$(%s)' % ref)
+            if r[0] == 'err' and r[1] in (7, 14):
+                raise NoRoom()
             if r[0] != 'ok':
                 raise Internal('VARPTR$(%s) -> %r' % (ref, r[:2]))
             c['vps'] = list(r[1])
@@ -128,6 +138,11 @@ class Drv(object):
             e['sweep'] = self.sweep()
             e['area'] = [self.num(x) & 0xFFFF for x in AREA]
             self.cells_swept += len(e['sweep'])
+        except NoRoom:
+            # not observable any more: drop the event and end the history (the next begin re-synchronises)
+            e['kind'] = 'noroom'
+            self.norooms += 1
+            return e
         except Internal as ex:
             e['kind'] = 'internal'
             e['detail'] = 'sweep: %s' % ex
@@ -214,7 +229,7 @@ def spec_to_code(ctx):
     inits = {t['from'] for t in trans if t['d'] == 0}
     if len(inits) != 1:
         raise core.MachineryError('emit: %d initial states' % len(inits))
-    walks, cov, total = graph.covering_walks(trans, inits.pop(), max_len=8, rng=ctx.rng, limit=ctx.pick(700, None))
+    walks, cov, total = graph.covering_walks(trans, inits.pop(), max_len=8, rng=ctx.rng, limit=ctx.pick(500, None))
     ctx.cov['model_transitions'] = total
     ctx.cov['model_transitions_replayed'] = cov
     if not ctx.quick() and cov < total:
@@ -310,7 +325,7 @@ class Gen(object):
             return rng.choice(['0', '1', '-1.5', '3.25E+10', '-7.125E-20', '16777215', '%d' % rng.randint(-10 ** 6, 10 ** 6),
                                '%.4f' % rng.uniform(-1000, 1000)]), None
         if t == '#':
-            return rng.choice(['0#', '1#', '-1.5#', '3.14159265358979#', '-2.5D+100', '1D-30', '%d#' % rng.randint(-10 ** 9, 10 ** 9),
+            return rng.choice(['0#', '1#', '-1.5#', '3.14159265358979#', '-2.5D+30', '1D-30', '%d#' % rng.randint(-10 ** 9, 10 ** 9),
                                '%.9f#' % rng.uniform(-1000, 1000)]), None
         r = rng.random()
         ln = 0 if r < 0.1 else rng.randint(1, 6) if r < 0.6 else rng.randint(7, 24) if (r < 0.95 or self.tight) else rng.choice([100, 255])
@@ -385,13 +400,13 @@ class Gen(object):
                 else:
                     v, sv = o[0] + '+""', None
                 return d.do({'op': 'assign', 'x': c[0]}, '%s=%s' % (c[0], v))
-        return d.do({'op': 'other'}, 'F=FRE("")', lambda: ('F!' in d.scalars) or d.scalars.append('F!'))
+        return d.do({'op': 'assign', 'x': 'F!'}, 'F=FRE("")', lambda: ('F!' in d.scalars) or d.scalars.append('F!'))
 
 
 def code_to_spec(ctx):
     rng = ctx.rng
     d = Drv(ctx)
-    nhist = ctx.pick(36, 700)
+    nhist = ctx.pick(36, 250)
     plan = [None if rng.random() < 0.5 else rng.choice([300, 500, 900, 2500]) for _ in range(nhist)]
     plan.sort(key=lambda x: -(x or 10 ** 6))
     d.begin()
@@ -404,12 +419,17 @@ def code_to_spec(ctx):
         g = Gen(rng, d, tight=free0 is not None)
         for _ in range(rng.randint(15, ctx.pick(45, 80))):
             e = g.step()
-            if e['kind'] == 'internal':
+            if e['kind'] in ('internal', 'noroom'):
                 break
+            if free0:
+                f = d.s.ev('FRE(0)')
+                if f[0] != 'ok' or f[1] < 64:
+                    break                   # keep room for the sweep's own temporaries
     d.close()
     evs = d.events
     ctx.cov['history_statements'] = len(evs)
     ctx.cov['history_sessions'] = d.sessions
+    ctx.cov['history_ended_for_lack_of_room'] = d.norooms
     ctx.cov['history_cells_swept'] = d.cells_swept
     ctx.cov['history_max_cells'] = max(len(e['sweep']) for e in evs)
     ctx.cov['history_two_or_more_arrays'] = sum(1 for e in evs if len({c['arr'] for c in e['sweep'] if c['arr']}) >= 2)
@@ -423,9 +443,7 @@ def code_to_spec(ctx):
     ctx.cov['traces_validated_against_impl'] += ns
 
 
-def run(ctx):
-    ctx.cov['rule'] = ('events = BASIC statements on a real Session, each followed by a sweep of all live cells; distinct by '
-                       '(op, target, outcome, addresses of all cells)')
+def model_phases(ctx):
     r = ctx.tlc('VarMem_MC', ctx.pick('VarMem_MC.cfg', 'VarMem_MC_big.cfg'), workers=ctx.pick(4, 8), tag='model_check')
     ctx.cov['states'] += r['distinct']
     ctx.cov['transitions'] += r['generated']
@@ -438,5 +456,12 @@ def run(ctx):
     if r['ok'] or not r['error'] or 'FaithfulInv' not in r['error']:
         raise core.MachineryError('selftest: the as-coded model does not exhibit the Arrays.get_memory defect (%s)' % r['error'])
     ctx.cov['ascoded_counterexample'] = r['error']
+
+
+def run(ctx):
+    ctx.cov['rule'] = ('events = BASIC statements on a real Session, each followed by a sweep of all live cells; distinct by '
+                       '(op, target, outcome, addresses of all cells)')
+    if not os.environ.get('VERIF_SKIP_MODEL'):      # developer aid (mutant runs): the pure-model phases do not depend on the code
+        model_phases(ctx)
     spec_to_code(ctx)
     code_to_spec(ctx)
